@@ -7,6 +7,7 @@ import ast
 from ..core import (AnalysisError, local_defs, body_nodes, call_name, dotted, is_self_attr, key_text, names_in,
                     params, parent, stmts_of, unparse)
 from ..dtable import run_paths, subst
+from ..dtable import _val as dval
 from ..normal import inline_temps
 from ..pattern import find, guards_of, pmatch
 from ..linform import NotPoly, Poly, eval_poly
@@ -310,7 +311,26 @@ def check_env_pairing(prog, rep):
     mx = m.func('_mix_LR') if m.has_func('_mix_LR') else None
     if mx is not None:
         rep.instance('HCFLAG-mixer', {})
-        if 'one = 1.0 if not H.explicit_plus_hc else 0.5' not in unparse(mx):
+        body = [s2 for s2 in mx.body if not (isinstance(s2, ast.Expr) and
+                                             isinstance(s2.value, ast.Constant))]
+        okm = True
+        for flag, want in ((True, 0.5), (False, 1.0)):
+            vals = set()
+            for p_ in run_paths(body, {'H.explicit_plus_hc': flag, 'IdL is not None': True,
+                                       'IdR is not None': True, 'IdL is None': False,
+                                       'IdR is None': False}):
+                for st in p_.trace:
+                    for tg, v in ((t, st.value) for t in getattr(st, 'targets', [])
+                                  if isinstance(st, ast.Assign)):
+                        if isinstance(tg, ast.Subscript) and unparse(tg) in (
+                                'mix_L[IdL]', 'mix_R[IdR]') or (
+                                isinstance(tg, ast.Subscript) and
+                                unparse(tg.slice) in ('IdL', 'IdR') and
+                                unparse(tg.value)[-1:] == unparse(tg.slice)[-1:]):
+                            vals.add(dval(v, {'H.explicit_plus_hc': flag}, p_.env))
+            if vals != {want}:
+                okm = False
+        if not okm:
             rep.violation('HCFLAG-mixer', m, '_mix_LR', 'mixer-weight',
                           'with explicit_plus_hc the identity channels of the mixer carry weight '
                           '0.5 (the other half comes from the adjoint)', mx.lineno)
